@@ -103,7 +103,7 @@ def run(rep, facts):
                 w[(who, str(pl[2]))] = val
         copies = [c for c in r.calls if c[0].endswith("copy_within")]
         dwrites = [c for c in r.calls if c[0].endswith("::write") and len(c[1]) == 2]
-        delivers = ("res", "stream") in w or copies or dwrites or ("self", "gap_start") in w
+        delivers = status_write(r, 'stream') is not None or copies or dwrites or ("self", "gap_start") in w
         if state != 'Stream':
             if delivers:
                 bad22.append("stream bytes are delivered / Status.stream changes in record state %s" % state)
@@ -111,7 +111,7 @@ def run(rep, facts):
         # delivering arm
         rs = added_amount(w.get(("self", "raw_start"), ('x',)), 'raw_start')
         pr = added_amount(w.get(("self", "payload_rem"), ('x',)), 'payload_rem')
-        sm = added_amount(w.get(("res", "stream"), ('x',)), 'stream')
+        sm = added_amount(status_write(r, 'stream') or ('x',), 'stream')
         if not rs or not pr or not sm or rs[0] != '+' or pr[0] != '-' or sm[0] != '+':
             bad23.append("the delivering arm does not update {Status.stream +=, raw_start +=, payload_rem -=}")
             continue
@@ -199,6 +199,14 @@ def run(rep, facts):
                     x = x[1]
                 if x[0] == 'param' and x[2] == 'dest' and refs >= 1:
                     okarg = True
+                # or a reference to a private struct that was built *before* the loop around `dest` (the cursor then lives in that struct)
+                if x[0] == 'agg' and x[1] == 'adt' and refs >= 1 and any(ir.peel(v)[0] == 'param' and ir.peel(v)[2] == 'dest' for (_, v) in x[3]):
+                    adt = x[2].rsplit("::", 1)[0]
+                    loops = in_loop_blocks(b)
+                    sites = [bj for bj, blk2 in enumerate(b.blocks) for st2 in blk2["st"]
+                             if st2["k"] == "assign" and st2["rv"]["k"] == "agg" and F.norm(st2["rv"].get("adt", "")) == adt]
+                    if sites and not any(bj in loops for bj in sites):
+                        okarg = True
             loc = "%s:%d" % (t["sp"]["f"], t["sp"]["l"])
             (rep.ok if okarg else rep.violation)("R2.6", "parse/one-cursor", "the payload step receives `&mut dest` (parse's own parameter): the write cursor persists across records" if okarg else
                                                  "the payload step is handed a fresh reborrow / copy of the caller buffer per record: later records would overwrite earlier ones", loc)
@@ -229,9 +237,55 @@ def run(rep, facts):
                         if writes_through(hb, ai + 1, depth + 1):
                             return True
         return False
-    okw = writes_through(pb, 3)      # parse_payload(self, res, dest)
+    okw = any(writes_through(pb, k) for k in range(2, pb.argc + 1))      # whichever parameter of the payload step carries the caller's buffer
     (rep.ok if okw else rep.violation)("R2.6", "payload-step/writes-through-cursor", "buf.write(payload) goes through the reference into the caller's Option<&mut [u8]> (the slice advances in place)" if okw else
                                        "the payload step writes through a by-value copy of the caller buffer", pb.loc())
+
+
+def status_write(r, field):
+    """Value stored on this path into `<something of type stream::Status>.<field>`, identified by the owner type of the
+    projection (not by the name of the variable or parameter that holds the Status), or None."""
+    out = None
+    for (pl, val, n, st) in r.writes:
+        for el in st["place"].get("p", []):
+            if "f" in el and str(el.get("n", el["f"])) == field and F.norm(el.get("of", "")) == "parser::stream::Status":
+                out = val
+    return out
+
+
+def in_loop_blocks(body):
+    """Blocks that lie on a cycle of the body's control-flow graph."""
+    n = len(body.blocks)
+    succ = {b: [x for x in body.succs(b)] for b in range(n)}
+    index, low, onst, stack, out, cnt = {}, {}, set(), [], set(), [0]
+    import sys
+    sys.setrecursionlimit(10000)
+
+    def sc(v):
+        index[v] = low[v] = cnt[0]
+        cnt[0] += 1
+        stack.append(v)
+        onst.add(v)
+        for w in succ[v]:
+            if w not in index:
+                sc(w)
+                low[v] = min(low[v], low[w])
+            elif w in onst:
+                low[v] = min(low[v], index[w])
+        if low[v] == index[v]:
+            comp = []
+            while True:
+                w = stack.pop()
+                onst.discard(w)
+                comp.append(w)
+                if w == v:
+                    break
+            if len(comp) > 1 or v in succ[v]:
+                out.update(comp)
+    for v in range(n):
+        if v not in index:
+            sc(v)
+    return out
 
 
 def main(rep, tier):
